@@ -5,7 +5,7 @@ import bp
 EXPLANATION = ('C17: real Sign/StepFunction/Relative_Difference/Floats_Equal: consistency, symmetry and reflexivity with every divisor non-zero (EA) and, bit-precisely over all doubles, Sign/StepFunction consistency (CBMC); '
                'Round: odd, Round(0)=0, more than 7 digits rejected; Dawson_Integral: odd on both branches; VSH coefficient tables with symbolic integer (l,m): selection structure (non-zero only for l_hat = l+-1 and the stated m_hat) and the sum rules sum |coef|^2 = 1 (Y) and = l(l+1) (Psi); component outside {0,1,2} rejected.')
 BOUNDS = {'quick': {'vsh_lmax': 4}, 'thorough': {'vsh_lmax': 12}}
-NOT_DECIDED = ['accuracy of Dawson_Integral / Erfi / Inv_Erf (transcendental references)', "Round's half-unit, idempotence and monotonicity claims (go through log10/pow)", 'conjugation, tangentiality and gradient identities of the vector harmonics as identities of functions (need the scalar harmonics from boost; decided here: coefficient tables, selection and sum rules, and that the summation loops add exactly the table entries with |m_hat| <= l_hat for l <= vsh_lmax) and the sign conventions of the tables']
+NOT_DECIDED = ['accuracy of Dawson_Integral / Erfi / Inv_Erf (transcendental references)', "Round: idempotence, monotonicity ACROSS decades, and the effect of rounding in log10/pow near powers of ten (decided: half-unit accuracy, digit structure and monotonicity within a decade, with E = floor(log10|x|), 10^E as an abstract decade)", 'conjugation, tangentiality and gradient identities of the vector harmonics as identities of functions (need the scalar harmonics from boost; decided here: coefficient tables, selection and sum rules, and that the summation loops add exactly the table entries with |m_hat| <= l_hat for l <= vsh_lmax) and the sign conventions of the tables']
 ASSUMPTIONS = ['EA: doubles exact reals, exp/log10/pow uninterpreted', 'VSH: l, m symbolic integers with l >= 1, |m| <= l; square roots via witnesses']
 
 X, Y, T = z3.Real('x'), z3.Real('y'), z3.Real('tol')
@@ -61,6 +61,37 @@ def job_round():
                 if p.end is not None or q.end is not None:
                     res.append(ob('round/digits%d/returns[%d,%d]' % (d, pi, qi), 'undecided', detail='%s / %s' % (p.end, q.end))); continue
                 res.append(prove('round/digits%d/odd[%d,%d]' % (d, pi, qi), p.st.pc + q.st.pc, toR(q.ret) == -toR(p.ret), 20000, {'x': X, 'digits': d, 'op': 4}, key='C17/round/odd', sample=(d == 3)))
+    # half-unit accuracy, digit structure and monotonicity within a decade: log10 / pow(10, .) enter only through E = floor(log10 |x|) and T = 10^E; with the exact-arithmetic facts
+    # T > 0, 10^-E = 1/T, T <= |x| < 10 T as axioms the returned term is decided for every x of the decade and every decade at once
+    from fractions import Fraction
+    T, U, Yq = z3.Real('T'), z3.Real('invT'), z3.Real('y')
+    def decade_term(t):
+        subs = []; seen = set(); stack = [t]
+        while stack:
+            u_ = stack.pop()
+            if u_.get_id() in seen: continue
+            seen.add(u_.get_id()); stack.extend(u_.children())
+            if z3.is_app(u_) and u_.decl().name() == 'pow' and u_.num_args() == 2 and z3.is_rational_value(u_.arg(0)) and u_.arg(0).numerator_as_long() == 10 and u_.arg(0).denominator_as_long() == 1 and 'log10' in str(u_.arg(1)):
+                neg = str(z3.simplify(u_.arg(1))).lstrip().startswith(('-', '(-', '-1*')) or u_.arg(1).decl().kind() == z3.Z3_OP_UMINUS
+                subs.append((u_, U if neg else T))
+        return z3.substitute(t, *subs) if subs else t, len(subs)
+    for d in range(1, 8):
+        _, P = sf(4, X, i=d, pre=[X > 0], resolve_selects=True)
+        live = [p for p in P if p.end is None]
+        if len(live) != 1: res.append(ob('round/digits%d/decade-form' % d, 'undecided', detail='%d returning paths' % len(live))); continue
+        r, nsub = decade_term(toR(live[0].ret)); c = Fraction(10.0 ** (-d + 1)); sc = 10 ** (d - 1)
+        if nsub < 2 or 'log10' in str(r) or 'pow' in str(r): res.append(ob('round/digits%d/decade-form' % d, 'undecided', detail='result is not a term over 10^E and 10^-E: %s' % str(r)[:200])); continue
+        ax = [T > 0, U * T == 1, T <= X, X < 10 * T]; slack = abs(c * sc - 1) * 10 + Fraction(1, 10 ** 15); half = (Fraction(1, 2 * sc) + slack)
+        mvr = {'x': X, 'T': T, 'digits': d, 'op': 4, 'round_decade': 1}
+        res.append(prove('round/digits%d/within-half-a-unit-of-the-last-digit' % d, ax, z3.And(r - X <= RV(half) * T, X - r <= RV(half) * T), 30000, mvr, key='C17/round/half-unit', sample=(d == 3)))
+        res.append(prove('round/digits%d/stays-in-the-decade' % d, ax, z3.And(r >= T * RV(1 - slack), r <= 10 * T * RV(1 + slack)), 30000, mvr, key='C17/round/decade'))
+        r2 = z3.substitute(r, (X, Yq))
+        # x <= y implies x/T <= y/T (proved as its own obligation), handed to the monotonicity query as a lemma: with it the query is linear in the two scaled arguments
+        res.append(prove('round/digits%d/scaling-is-monotone' % d, ax + [X <= Yq], X * U <= Yq * U, 30000, dict(mvr, y=Yq), key='C17/round/monotone', tactic='nra'))
+        # monotone within a decade, in three small steps: (1) scaling is monotone (above); (2) the returned term is T * c * floor(10^(d-1) * (x/T) + 1/2), c > 0 the double 10^-(d-1); (3) floor(s p + 1/2) is monotone in p
+        Pq, Qq = z3.Real('p'), z3.Real('q'); kx = z3.ToReal(z3.ToInt(sc * (X * U) + RV(0.5)))
+        res.append(prove('round/digits%d/digit-structure' % d, ax, r == T * RV(c) * kx, 30000, mvr, key='C17/round/structure'))
+        res.append(prove('round/digits%d/floor-step-is-monotone' % d, [Pq <= Qq], z3.ToInt(sc * Pq + RV(0.5)) <= z3.ToInt(sc * Qq + RV(0.5)), 30000, {'digits': d}, key='C17/round/monotone', detail='with the two obligations before: x <= y in one decade implies Round(x) <= Round(y)'))
     _, ps = sf(4, 0.0, i=3)
     ok = len(ps) == 1 and ps[0].end is None and ps[0].ret == 0.0
     res.append(ob('round/zero', 'discharged' if ok else 'candidate', key='C17/round/zero', model=None if ok else {'x': [0, 1], 'digits': 3, 'op': 4}, detail='Round(0) = %s' % (ps[0].ret if ps else None)))
@@ -246,6 +277,19 @@ def replay(ctx, o):
         if key == 'C17/round/digits-rejected': return r1['status'] != 'exit', 'native Round(%r,%d): %s' % (x, d, r1.get('ret', r1['status']))
         if key == 'C17/round/digits-accepted': return r1['status'] != 'ok', 'native Round(%r,%d): %s' % (x, d, r1['status'])
         if key == 'C17/round/zero': return r1.get('ret') != 0.0, 'native Round(0)=%s' % r1.get('ret')
+        if key in ('C17/round/half-unit', 'C17/round/decade', 'C17/round/structure', 'C17/round/monotone'):
+            # the model lives in one abstract decade (T stands for 10^E): natively the same clauses over mantissas in several decades, away from the powers of ten where rounding of log10 matters
+            px = fl(m.get('x', [3, 2])) / (fl(m.get('T', [1, 1])) or 1.0); cands = sorted(set([min(max(px, 1.0001), 9.9998), 1.2345678, 2.5, 4.44445, 7.0000005, 9.49999, 9.96]))
+            prev = None; worst = None
+            for e in (-7, -1, 0, 3, 12):
+                prev = None
+                for mant in cands:
+                    xx = mant * 10.0 ** e; r = nsf(ctx, 4, xx, i=d)
+                    if r['status'] != 'ok': return True, 'native Round(%r,%d): %s' % (xx, d, r['status'])
+                    unit = 10.0 ** (e - d + 1); dev = abs(r['ret'] - xx) / unit
+                    if dev > 0.5 * (1 + 1e-6) or (prev is not None and r['ret'] < prev * (1 - 1e-15)): return True, 'native Round(%r,%d) = %r: %.6f units of the last digit away%s' % (xx, d, r['ret'], dev, '' if prev is None or r['ret'] >= prev else ', below Round of a smaller argument (%r)' % prev)
+                    prev = r['ret']
+            return False, 'native Round over %d mantissas x 5 decades, %d digits: within half a unit of the last digit and monotone' % (len(cands), d)
         return (r1.get('ret') != -r2.get('ret', 0)), 'native Round(%r,%d)=%s Round(%r,%d)=%s' % (x, d, r1.get('ret'), -x, d, r2.get('ret'))
     if key == 'C17/dawson/odd':
         r1 = nsf(ctx, 30, x); r2 = nsf(ctx, 30, -x); return r1.get('ret') != -r2.get('ret', 0), 'native Dawson(%r)=%s Dawson(%r)=%s' % (x, r1.get('ret'), -x, r2.get('ret'))
